@@ -9,7 +9,9 @@ From RU Require Import Base.Prelude Base.Utf8 Model.AsciiSet Gen.Tables Model.Pe
   Model.HostT Model.UrlRecord Model.Parser Model.KnownC01 Spec.Whatwg
   Proofs.C01_Tables Proofs.C01_Override
   Model.Setters Proofs.C08_Input Proofs.C01_EqRun Proofs.C01_EqEnc Proofs.C01_EqApi Proofs.C01_EqOpaque Proofs.C01_EqRef Proofs.C01_EqPathSpec Proofs.C01_EqDots Proofs.C01_EqPath Proofs.C01_EqOverflow Proofs.C01_EqEmpty Proofs.C01_EqClasses
-  Model.WF Proofs.C02_Opaque.
+  Model.WF Proofs.C02_Opaque
+  Model.Host Spec.WhatwgHost Spec.WhatwgHostParse
+  Proofs.C01_EqAuthSpec Proofs.C01_EqAuthModel Proofs.C01_EqAuth Proofs.C01_EqAuthHost Proofs.C01_EqClasses2.
 
 (* (a) the percent-encode sets applied by the parser are the Standard's, for every byte *)
 Theorem C01_sets : forall b, b < 256 ->
@@ -324,3 +326,116 @@ Check C01_partial_strict : forall dbg hp hpo hd shp shs input base sbase,
   | BOutOfFuel => False
   end.
 Print Assumptions C01_partial_strict.
+
+(* ====================================================================================== *)
+(* "scheme://authority...": non-special scheme, no base                                    *)
+(* ====================================================================================== *)
+(* the Standard's side alone: on the text T after "scheme://" the authority state (buffer, atSignSeen,
+   passwordTokenSeen, the rewind), the host state (insideBrackets), the port state and the path start
+   state compute `sauth` - credentials cut at the LAST '@' and split at their first ':', host up to
+   the first ':' outside brackets, decimal port <= 65535, then path / query / fragment - or fail *)
+Theorem C01_authority_states : forall shp input sch T,
+  spec_scheme (spec_clean input) = Some (sch, 47 :: 47 :: T) -> is_special_scheme sch = false ->
+  match sauth shp sch T with
+  | Some su => spec_basic_url_parse shp input None = BDone su
+  | None => exists uf, spec_basic_url_parse shp input None = BFailure uf
+  end.
+Proof. exact spec_authority. Qed.
+Print Assumptions C01_authority_states.
+
+(* the class: every scalar-value input "sch://[userinfo@]host[:port][/path][?q][#f]" with a non-special
+   scheme - tab / LF / CR anywhere, any number of '@' and ':' in the userinfo, brackets in the host,
+   failing inputs included (empty host after credentials or in front of a port, host parser failure,
+   port not decimal or beyond 65535).  Excluded by in_class_authority, and only that: (a) authority
+   exactly ":@" - the model accepts "sch://:@/" as "sch:///", the Standard fails; (b) a port <= 65535
+   directly followed by '\' (F-C01-8); (c) a ".." meeting a drive-letter-shaped segment (F-C01-9).
+   The host parsers of the two sides are arbitrary functions that agree on the ONE string they are
+   applied to (host_agree ... (class_host_text input)).  Outcome: the Standard succeeds -> the model
+   answers Overflow and the Standard's href is longer than u32::MAX bytes, or succeeds with a `related`
+   record (same ten API strings; usable as a base of the reference classes above); the Standard
+   fails -> the model returns Err. *)
+Theorem C01_eq_authority : forall dbg hp hpo hd ovr shp shs input,
+  usv_list input -> in_class_authority input = true ->
+  host_agree hpo hd shp shs (class_host_text input) ->
+  agree_rel_strict dbg shs (parse_url dbg hp hpo hd ovr None input) (spec_basic_url_parse shp input None).
+Proof. exact class_authority. Qed.
+Check C01_eq_authority : forall dbg hp hpo hd ovr shp shs input,
+  usv_list input -> in_class_authority input = true ->
+  host_agree hpo hd shp shs (class_host_text input) ->
+  match spec_basic_url_parse shp input None with
+  | BDone su => (parse_url dbg hp hpo hd ovr None input = PErr Overflow /\ U32_MAX_P < nlen (get_href shs su))
+                \/ exists u, parse_url dbg hp hpo hd ovr None input = POk u /\ related dbg shs u su
+  | BFailure _ => exists e, parse_url dbg hp hpo hd ovr None input = PErr e
+  | BOutOfFuel => False
+  end.
+Print Assumptions C01_eq_authority.
+
+(* the hypothesis holds for the host functions as they are - Host::parse_opaque + Display (Model/Host.v)
+   and the Standard's host parser / serializer (Spec/WhatwgHostParse.v), any IDNA oracle - on every
+   string that does not start with '[' *)
+Theorem C01_host_agree_real : forall idna s, usv_list s -> Host.starts_with 91 s = false ->
+  host_agree host_parse_opaque host_display (spec_host_parser idna) spec_host_serializer s.
+Proof. exact host_agree_real. Qed.
+Print Assumptions C01_host_agree_real.
+
+(* non-vacuity with the real host functions: " N://u:p@q@H.x:080/a/../b?q#f" (leading space, upper-case
+   scheme, two '@', leading zero in the port) is in the class, its host text "H.x" meets host_agree, and
+   both sides give n://u:p%40q@H.x:80/b?q#f; "n://:@/" and "n://h:8\" are NOT in the class and the two
+   sides do differ on them *)
+Example C01_eq_authority_nonvacuous :
+  let shp := spec_host_parser (fun x => Some x) in
+  let i1 := [32; 78; 58; 47; 47; 117; 58; 112; 64; 113; 64; 72; 46; 120; 58; 48; 56; 48; 47; 97; 47; 46; 46; 47; 98; 63; 113; 35; 102] in
+  let i2 := [110; 58; 47; 47; 58; 64; 47] in
+  let i3 := [110; 58; 47; 47; 104; 58; 56; 92] in
+  in_class_authority i1 = true /\ class_host_text i1 = [72; 46; 120]
+  /\ host_agree host_parse_opaque host_display shp spec_host_serializer (class_host_text i1)
+  /\ match parse_url true (host_parse (fun x => Some x)) host_parse_opaque host_display None None i1,
+           spec_basic_url_parse shp i1 None with
+     | POk u, BDone su => api_of_model true u = Some (spec_api_list spec_host_serializer su)
+                          /\ q_href u = [110; 58; 47; 47; 117; 58; 112; 37; 52; 48; 113; 64; 72; 46; 120; 58; 56; 48; 47; 98; 63; 113; 35; 102]
+     | _, _ => False
+     end
+  /\ in_class_authority i2 = false /\ in_class_authority i3 = false
+  /\ match parse_url true (host_parse (fun x => Some x)) host_parse_opaque host_display None None i2,
+           spec_basic_url_parse shp i2 None with
+     | POk u, BFailure _ => q_href u = [110; 58; 47; 47; 47]
+     | _, _ => False
+     end
+  /\ match parse_url true (host_parse (fun x => Some x)) host_parse_opaque host_display None None i3,
+           spec_basic_url_parse shp i3 None with
+     | POk u, BFailure _ => q_href u = [110; 58; 47; 47; 104; 58; 56; 47; 92]
+     | _, _ => False
+     end.
+Proof.
+  cbv zeta. split; [vm_compute; reflexivity|]. split; [vm_compute; reflexivity|].
+  split; [unfold host_agree; vm_compute; repeat split; try reflexivity; intros H; discriminate H|].
+  vm_compute. repeat split.
+Qed.
+
+(* ---------- the proved classes assembled again, with the authority class ---------- *)
+(* in_proved_class2 = in_proved_class or (no base and in_class_authority); host_hyp asks for host_agree
+   on class_host_text input only when the input is in the authority class (the other classes never call
+   a host function, C01_partial_strict has no such hypothesis) *)
+Theorem C01_partial2 : forall dbg hp hpo hd shp shs input base sbase,
+  usv_list input -> base_rel dbg shs base sbase -> in_proved_class2 sbase input = true ->
+  host_hyp hpo hd shp shs sbase input ->
+  agree dbg shs (parse_url dbg hp hpo hd None base input) (spec_basic_url_parse shp input sbase).
+Proof. exact partial_equivalence2. Qed.
+Print Assumptions C01_partial2.
+
+Theorem C01_partial_strict2 : forall dbg hp hpo hd shp shs input base sbase,
+  usv_list input -> base_rel dbg shs base sbase -> in_proved_class2 sbase input = true ->
+  host_hyp hpo hd shp shs sbase input ->
+  agree_strict dbg shs (parse_url dbg hp hpo hd None base input) (spec_basic_url_parse shp input sbase).
+Proof. exact partial_equivalence_strict2. Qed.
+Check C01_partial_strict2 : forall dbg hp hpo hd shp shs input base sbase,
+  usv_list input -> base_rel dbg shs base sbase -> in_proved_class2 sbase input = true ->
+  (sbase = None -> in_class_authority input = true -> host_agree hpo hd shp shs (class_host_text input)) ->
+  match spec_basic_url_parse shp input sbase with
+  | BDone su => (parse_url dbg hp hpo hd None base input = PErr Overflow /\ U32_MAX_P < nlen (get_href shs su))
+                \/ exists u, parse_url dbg hp hpo hd None base input = POk u
+                             /\ api_of_model dbg u = Some (spec_api_list shs su)
+  | BFailure _ => exists e, parse_url dbg hp hpo hd None base input = PErr e
+  | BOutOfFuel => False
+  end.
+Print Assumptions C01_partial_strict2.
